@@ -159,7 +159,8 @@ class C04(Prop):
                 order = [o.get("s") for o in ops]
                 ops = [per[s].pop(0) for s in order]
         send_errors = {"%d:1" % rng.randint(1, max(1, opid)): rng.choice([1, 105, 101, 111]) for _ in range(rng.randint(1, 2))} if rng.random() < 0.1 else {}
-        return {"send_errors": send_errors, "flavour": flavour, "agent": agent, "sessions": sessions, "ops": ops, "scripts": scripts, "latency_ns": lat, "ready_order_seed": rng.randrange(2**31), "rx_tail": rng.choice(["poison", "keep"]), "sched_seed": rng.randrange(2**31)}
+        second_loop = rng.randint(1, len(ops)) if flavour == "async" and len(ops) > 1 and rng.random() < 0.15 else 0
+        return {"second_loop_at": second_loop, "send_errors": send_errors, "flavour": flavour, "agent": agent, "sessions": sessions, "ops": ops, "scripts": scripts, "latency_ns": lat, "ready_order_seed": rng.randrange(2**31), "rx_tail": rng.choice(["poison", "keep"]), "sched_seed": rng.randrange(2**31)}
 
     def check(self, run):
         out = []
